@@ -42,8 +42,8 @@ func TestSweep(t *testing.T) {
 		ds := e.S.Bits
 		// reference levels and boundary-dense codes through the case oracle
 		Oracle.One(t, env, rec, "sweep", &Case{S: e.S.Name, D: e.D.Name, Amps: bAmps[ds]})
-		for _, pad := range []int{1024, 4099} {
-			Oracle.One(t, env, rec, "sweep", &Case{S: e.S.Name, D: e.D.Name, Amps: bAmps[ds], Pad: pad})
+		for i, pad := range []int{1024, 4099} {
+			Oracle.One(t, env, rec, "sweep", &Case{S: e.S.Name, D: e.D.Name, Amps: bAmps[ds], Pad: pad, Fix: 1 + i})
 		}
 		if ds == 8 { // every 8-bit code, alone in short buffers and repeated in long ones
 			all := make([]int64, 256)
